@@ -2,6 +2,7 @@ package props
 
 import (
 	"fmt"
+	nurl "net/url"
 	"strings"
 
 	"verif/harness/eng"
@@ -27,6 +28,9 @@ var c17Fams = []pagerFam{
 	{"path-mid", func(i int) string { return fmt.Sprintf("http://example.com/story/%d/full", i) }},
 	{"suffix-padded", func(i int) string { return fmt.Sprintf("http://example.com/some-title-%02d.html", i) }},
 	{"path-padded", func(i int) string { return fmt.Sprintf("http://example.com/holiday/%02d", i) }},
+	{"path-escaped", func(i int) string { return fmt.Sprintf("http://example.com/story/caf%%C3%%A9/%d", i) }},
+	{"dir-space-query", func(i int) string { return fmt.Sprintf("http://example.com/my%%20story/view?page=%d", i) }},
+	{"suffix-nonascii", func(i int) string { return fmt.Sprintf("http://example.com/story/caf\u00e9-%d.html", i) }},
 }
 
 var (
@@ -41,7 +45,7 @@ func c17Article(t *ora.Tok) string {
 	return "<div class=\"article\"><p>" + t.W(22) + "</p><p>" + t.W(25) + "</p><p>" + t.W(21) + "</p></div>"
 }
 
-func c17Pager(fam pagerFam, n, k int, sep, wrap, cur, href, deco string) string {
+func c17Pager(fam pagerFam, n, k int, sep, wrap, cur, href, deco, label string) string {
 	var items []string
 	for i := 1; i <= n; i++ {
 		var it string
@@ -88,7 +92,16 @@ func c17Pager(fam pagerFam, n, k int, sep, wrap, cur, href, deco string) string 
 	if wrap == "nav-li-pretty" {
 		return "<nav aria-label=\"pages\">\n  <ul class=\"pages\">" + inner + "\n  </ul>\n</nav>"
 	}
-	return "<div class=\"pages\">" + inner + "</div>"
+	lead := ""
+	switch label {
+	case "text":
+		lead = fmt.Sprintf("Page %d of %d: ", k, n)
+	case "span":
+		lead = fmt.Sprintf("<span class=\"info\">Page %d of %d</span> ", k, n)
+	case "count":
+		lead = fmt.Sprintf("%d pages: ", n)
+	}
+	return "<div class=\"pages\">" + lead + inner + "</div>"
 }
 
 func c17Doc(c *eng.Case) {
@@ -98,7 +111,7 @@ func c17Doc(c *eng.Case) {
 	fmt.Sscanf(c.P["fam"], "%d", &fi)
 	fam := c17Fams[fi]
 	t := &ora.Tok{}
-	pager := c17Pager(fam, n, k, c.P["sep"], c.P["wrap"], c.P["cur"], c.P["href"], c.P["deco"])
+	pager := c17Pager(fam, n, k, c.P["sep"], c.P["wrap"], c.P["cur"], c.P["href"], c.P["deco"], c.P["label"])
 	if c.Algo == 0 { // PrevNext: labelled anchors
 		var pn []string
 		if k > 1 {
@@ -167,6 +180,15 @@ func c17Enumerate(tier string, emit func(*eng.Case)) {
 						}
 					}
 				}
+				// a label in front of the numbers ("Page k of N", "N pages") in the plain markup
+				for _, label := range []string{"text", "span", "count"} {
+					for _, sep := range []string{" ", " | "} {
+						c := &eng.Case{Kind: "pagenumber", Algo: 1, P: map[string]string{
+							"n": fmt.Sprint(n), "k": fmt.Sprint(k), "fam": fmt.Sprint(fi), "sep": sep, "wrap": "", "cur": "plain", "href": "abs", "pos": "after", "slash": "0", "deco": "", "label": label}}
+						c17Doc(c)
+						emit(c)
+					}
+				}
 				// PrevNext
 				for _, pl := range []string{"Prev", "Previous"} {
 					for _, pnpos := range []string{"only", "after", "before"} {
@@ -187,8 +209,14 @@ func c17Enumerate(tier string, emit func(*eng.Case)) {
 	}
 }
 
+// normPageURL: one trailing slash dropped, percent-escapes decoded (the library may report either
+// spelling of an escaped path; which one is not part of the property).
 func normPageURL(s string) string {
-	return strings.TrimSuffix(s, "/")
+	s = strings.TrimSuffix(s, "/")
+	if d, err := nurl.PathUnescape(s); err == nil {
+		return d
+	}
+	return s
 }
 
 func c17Check(c *eng.Case) *eng.Outcome {
@@ -217,20 +245,20 @@ func c17Check(c *eng.Case) *eng.Outcome {
 	gotNext, gotPrev := res.PaginationInfo.NextPage, res.PaginationInfo.PrevPage
 	o.Nontrivial = k > 1 && k < n
 	o.Class = fmt.Sprintf("%s next=%v prev=%v", c.Kind, gotNext != "", gotPrev != "")
-	markup := fmt.Sprintf("sep=%q,wrap=%s,cur=%s,href=%s,pos=%s,slash=%s,deco=%s", c.P["sep"], c.P["wrap"], c.P["cur"], c.P["href"], c.P["pos"], c.P["slash"], c.P["deco"])
+	markup := fmt.Sprintf("sep=%q,wrap=%s,cur=%s,href=%s,pos=%s,slash=%s,deco=%s,label=%s", c.P["sep"], c.P["wrap"], c.P["cur"], c.P["href"], c.P["pos"], c.P["slash"], c.P["deco"], c.P["label"])
 	if c.Kind == "pagenumber" {
-		if normPageURL(gotNext) != wantNext {
+		if normPageURL(gotNext) != normPageURL(wantNext) {
 			o.V(fmt.Sprintf("pagenumber-next/%s/%s", fam.name, markup), "N=%d k=%d: NextPage=%q want %q (page URL %s)", n, k, gotNext, wantNext, c.URL)
 		}
-		if normPageURL(gotPrev) != wantPrev {
+		if normPageURL(gotPrev) != normPageURL(wantPrev) {
 			o.V(fmt.Sprintf("pagenumber-prev/%s/%s", fam.name, markup), "N=%d k=%d: PrevPage=%q want %q (page URL %s)", n, k, gotPrev, wantPrev, c.URL)
 		}
 	} else {
 		// only demanded when the labelled anchor exists
-		if wantNext != "" && normPageURL(gotNext) != wantNext {
+		if wantNext != "" && normPageURL(gotNext) != normPageURL(wantNext) {
 			o.V(fmt.Sprintf("prevnext-next/%s/%s", fam.name, c.P["pnpos"]), "N=%d k=%d: NextPage=%q want %q", n, k, gotNext, wantNext)
 		}
-		if wantPrev != "" && normPageURL(gotPrev) != wantPrev {
+		if wantPrev != "" && normPageURL(gotPrev) != normPageURL(wantPrev) {
 			o.V(fmt.Sprintf("prevnext-prev/%s/%s/%s", fam.name, c.P["prevlabel"], c.P["pnpos"]), "N=%d k=%d: PrevPage=%q want %q", n, k, gotPrev, wantPrev)
 		}
 	}
@@ -241,7 +269,7 @@ func init() {
 	eng.Register(&eng.Prop{
 		ID:        "C17",
 		DesignRef: "§5 C17",
-		Rule: "every (N in 2..12, k in 1..N) x 10 URL families (two with zero-padded numbers) x pager markups (separator incl. ones glued to the numbers, wrapper, current-page decoration, absolute/root-relative hrefs, bracketed link labels [i] (i) [ i ], pager before/after article, trailing slash on path families) for PageNumber; " +
+		Rule: "every (N in 2..12, k in 1..N) x 13 URL families (two with zero-padded numbers, three with an escaped or non-ASCII path) x pager markups (separator incl. ones glued to the numbers, wrapper, current-page decoration, absolute/root-relative hrefs, bracketed link labels [i] (i) [ i ], a 'Page k of N' / 'N pages' label in front of the numbers, pager before/after article, trailing slash on path families) for PageNumber; " +
 			"x {Prev,Previous} x 3 placements of the labelled anchors for PrevNext; quick varies at most one markup dimension at a time, thorough takes the full product. Oracle: next = link(k+1), prev = link(k-1). " +
 			"Non-trivial = inner pages (1<k<N), where both links are demanded.",
 		Enumerate: c17Enumerate,
